@@ -208,7 +208,7 @@ def no_underflow(ctx, rule='C08.no-underflow'):
     ctx.stats['iterator_api_fns'] = len(fns)
     ctx.stats['length_subtractions'] = nsub
     ctx.stats['saturating_or_checked_subs'] = nsafe
-    f = floor(rule, 'length subtractions (plain or saturating/checked) reachable from the iterator API', nsub + nsafe, 2)
+    f = floor(rule, 'length subtractions (plain or saturating/checked) reachable from the iterator API', nsub + nsafe, 1)
     if f:
         res.append(f)
     if not any(not r.ok for r in res):
@@ -319,6 +319,118 @@ def index_bounds(ctx, rule='C08.index-bounds'):
     return res
 
 
+def stack_never_emptied(ctx, rule='C08.stack-never-emptied'):
+    """an empty search stack means "iteration has not started": once started, the stack must never become empty again,
+    so every pop (or other removal) on Cursor.stack is controlled by a test that more than one level is left"""
+    res = []
+    F = ctx.facts
+    from flow import Prov
+    n = 0
+    for fn in F.fns:
+        pv = None
+        for bb in sorted(fn.reachable_blocks()):
+            t = fn.term(bb)
+            c = callee_of(t) if t['k'] == 'call' else None
+            if not c or not t['args']:
+                continue
+            name = last_seg(strip_generics(c['path']))
+            if name not in ('pop', 'clear', 'truncate', 'drain', 'remove', 'swap_remove', 'split_off', 'retain'):
+                continue
+            pv = pv or Prov(fn)
+            fs, _ = pv.of_operand(t['args'][0])
+            if not any(a and last_seg(a) == 'Cursor' and nme == 'stack' for a, nme in fs):
+                continue
+            n += 1
+            du = ctx.du(fn)
+            guarded = False
+            for (a, sx) in fn.control_deps_transitive(bb):
+                at = fn.term(a)
+                if at['k'] != 'switch':
+                    continue
+                _, da = du.slice_operand(at['discr'])
+                stack_len = False
+                for x in da:
+                    if x[0] == 'call' and last_seg(strip_generics(x[2])) == 'len':
+                        cc = callee_of(fn.term(x[1]))
+                        if cc and 'SearchPath' in (cc.get('self_ty') or ''):
+                            stack_len = True
+                if stack_len and any(x[0] == 'const' and x[1] == 1 for x in da) and not any(x[0] == 'bin' and x[1].startswith(('Add', 'Sub')) for x in da):
+                    guarded = True
+            if name == 'pop' and guarded:
+                res.append(ok(rule, 'pop of the search stack at %s is controlled by a test that more than one level is left' % fn.loc(bb), sites=1))
+            else:
+                res.append(bad(rule, '%s | search stack can be emptied (%s)' % (fn.qual, name),
+                               '%s removes levels from the cursor\'s search stack at %s (`%s`) without a controlling test that more than one level is left: an exhausted cursor ends with an empty '
+                               'stack, which is also the "not started" state, so calling next() again after the end restarts the iteration from the first entry' % (fn.qual, fn.loc(bb), name),
+                               where=fn.loc(bb)))
+    f = floor(rule, 'removals from the cursor search stack', n, 1)
+    if f:
+        res.append(f)
+    return res
+
+
+def index_agreement(ctx, rule='C08.index-agreement'):
+    """sibling agreement: page-backed and node-backed lookups must treat a missing key the same way (all binary-search
+    misses reachable from the index role are adjusted identically)"""
+    res = []
+    F = ctx.facts
+    idx = None
+    for f in F.fns:
+        if f.kind == 'AssocFn' and not f.trait and f.self_adt and last_seg(f.self_adt) == 'PageNode' and f.locals[0]['ty'] == '(usize, bool)':
+            idx = f
+    if idx is None:
+        return [unresolved(rule, 'index role (PageNode method returning (usize, bool))')]
+    conv = []
+    nsearch = 0
+    for fn in sorted(F.reachable_fns([idx]), key=lambda f: f.path):
+        du = None
+        for bb in sorted(fn.reachable_blocks()):
+            t = fn.term(bb)
+            c = callee_of(t) if t['k'] == 'call' else None
+            if c and last_seg(strip_generics(c['path'])).startswith('binary_search'):
+                nsearch += 1
+        # consumptions of an Err payload of a Result<usize, usize>
+        for bb in sorted(fn.reachable_blocks()):
+            for si, s in enumerate(fn.blocks[bb]['stmts']):
+                if s['k'] != 'assign' or s['rv']['k'] != 'use':
+                    continue
+                p = op_place(s['rv']['op'])
+                if p is None or not any(e['k'] == 'downcast' and e.get('variant') == 'Err' for e in p['pr']):
+                    continue
+                if 'Result<usize, usize>' not in fn.locals[p['l']]['ty']:
+                    continue
+                du = du or ctx.du(fn)
+                e_local = s['p']['l']
+                # forward: is the payload decremented before it is used?
+                dec = False
+                for b2 in fn.reach_from([bb]):
+                    t2 = fn.term(b2)
+                    c2 = callee_of(t2) if t2['k'] == 'call' else None
+                    if c2 and last_seg(strip_generics(c2['path'])) in ('saturating_sub', 'checked_sub', 'wrapping_sub') and t2['args']:
+                        l2 = op_local(t2['args'][0])
+                        if l2 is not None and e_local in du.slice_local(l2)[0]:
+                            dec = True
+                    for s2 in fn.blocks[b2]['stmts']:
+                        if s2['k'] == 'assign' and s2['rv']['k'] == 'bin' and s2['rv']['op'].startswith('Sub'):
+                            l2 = op_local(s2['rv']['a'])
+                            if l2 is not None and e_local in du.slice_local(l2)[0]:
+                                dec = True
+                conv.append((fn, bb, si, 'slot before the missing key (i - 1)' if dec else 'insertion slot (i)'))
+    ctx.stats['binary_searches_under_index'] = nsearch
+    f = floor(rule, 'binary searches reachable from the index role', nsearch, 2) or floor(rule, 'handled binary-search misses', len(conv), 1)
+    if f:
+        res.append(f)
+    kinds = {k for _, _, _, k in conv}
+    if len(kinds) > 1:
+        for fn, bb, si, k in conv:
+            res.append(bad(rule, '%s | missing key resolved to the %s' % (fn.qual, k.split(' (')[0]),
+                           'lookups reachable from %s disagree on where a missing key points: %s at %s, while another site uses %s. Page-backed and node-backed nodes must agree, '
+                           'otherwise seek / range starts differ between untouched and modified leaves' % (idx.qual, k, fn.loc(bb, si), sorted(kinds - {k})), where=fn.loc(bb, si)))
+    else:
+        res.append(ok(rule, '%d binary searches under %s; every miss is resolved the same way (%s)' % (nsearch, idx.qual, ', '.join(kinds)), sites=nsearch))
+    return res
+
+
 def run(ctx, tier):
     results = []
     results += bounds_total(ctx)
@@ -327,6 +439,8 @@ def run(ctx, tier):
     results += filter_total(ctx)
     results += seek_reset(ctx)
     results += index_bounds(ctx)
+    results += stack_never_emptied(ctx)
+    results += index_agreement(ctx)
     return dict(
         results=results, stats=dict(ctx.stats),
         explanation=(
@@ -334,5 +448,5 @@ def run(ctx, tier):
             'Excluded variants each have their own arm that reads the payload and they do not decide with the same comparison, Unbounded is separate; (start-compare) each start arm '
             'compares the current entry\'s key with the bound (seek may rest on either neighbour); (no-underflow) no plain `len - k` without a dominating length test is reachable from '
             'the iterator API; (filter-total) the bucket-only and pair-only filters return None only when the inner iterator is exhausted; (seek-reset) installing a new search stack '
-            'clears next_called; (index-bounds) a cursor index is advanced only under a test against the node length.'),
+            'clears next_called; (index-bounds) a cursor index is advanced only under a test against the node length; (stack-never-emptied) the search stack is never emptied once iteration started (repeated next() after the end is harmless); (index-agreement) page-backed and node-backed lookups resolve a missing key identically.'),
         assumptions=['Cursor::seek positions on the key or an immediate neighbour (property statement)'])
